@@ -55,4 +55,9 @@ set_option maxRecDepth 1000000 in
     of an immutable type and taking part in comparison -/
 theorem shipped_params : Generated.tables.c15 = true := by decide +kernel
 
+/-- the same for the four record classes of `kio.records.schema` (regenerated descriptors) -/
+theorem shipped_record_params :
+    Generated.recordClasses.length = 4 ∧ Generated.recordClasses.all ClassInfo.valueObject = true := by
+  decide +kernel
+
 end Kio.C15
